@@ -3,3 +3,4 @@ import CoolerModel.Props.C07Core
 import CoolerModel.Props.C07Break
 import CoolerModel.Props.C07Agg
 import CoolerModel.Props.C07Compat
+import CoolerModel.Props.C07Dtype
